@@ -198,3 +198,6 @@ class UnknownNode:
 
     def __ne__(self, other):
         return not (self == other)
+
+    def __hash__(self):
+        return hash((self.__class__, self.rw_uri, self.ro_uri))
